@@ -26,12 +26,12 @@ MANIFEST = dict(
          "reparameterisation state, sample counts, proposal weights, density tables, flows, model) is either carried by the pickle "
          "or assigned again by the resume path; everything any __getstate__ drops is re-derived; tuple parts are re-attached in "
          "order; no class outside the chain customises pickling; the likelihood counters cross the pickle as `_previous_*` and are "
-         "ADDED to the fresh model; the standard loop re-arms sampling_start_time. (b) Lean theorems, by induction over EVERY "
+         "ADDED to the fresh model; both sampling loops re-arm sampling_start_time; no local of a resume-path function can be unbound. (b) Lean theorems, by induction over EVERY "
          "history of launch/run/checkpoint/kill/down-time, about a model of the counters as the code keeps them (counter restarts at "
          "0 in a fresh process and is re-seeded with += from the pickle; sampling_time += now - start at each checkpoint): "
          "evaluations, likelihood time and sampling time equal the sums over the retained steps of a commit log (never double "
          "counted: sub-list of the performed steps; never reset: all of them without a kill), resume is idempotent on the accounts; "
-         "with counter-examples for a reused model object and for a loop that does not re-arm the start (the importance sampler). "
+         "with counter-examples for a reused model object and for a loop that does not re-arm the start. "
          "Tie: the tables are compared with the real __getstate__ output of live objects; field-by-field digests of the writing "
          "sampler at every checkpoint of real runs (standard sampler with neural flows; importance sampler with exactly-known and "
          "with neural flows, with/without saved density tables; iteration-, time- and training-triggered checkpoints) against the "
@@ -43,8 +43,9 @@ MANIFEST = dict(
          "loop (wall-clock is never compared). Optimiser state, cached latent-prior samplers and batch size are not in the property's "
          "list and are not restored by nessai (recorded in the evidence). The active-proposal pointer is compared as 'the proposal the "
          "next draw comes from'. The final traces of the chains are checked against the run invariants directly, not replayed through the "
-         "C01/C04/C05 models. Known findings: importance-sampler sampling_time after a resume (stale start), FlowProposal.resume with a "
-         "non-list mask, repeated history entry after a standard resume, checkpoint_on_training checkpoints written mid-iteration.",
+         "C01/C04/C05 models. Known findings: repeated history entry after a standard resume, checkpoint_on_training checkpoints written "
+         "mid-iteration. (Fixed in /repo and now required by the oracle: importance-sampler sampling_time after a resume, "
+         "FlowProposal.resume with a NumPy mask / AugmentedFlowProposal.)",
     technique="Lean 4 proof (decide over source-generated tables; induction over histories) + ast translator + real checkpoint/resume round trips and kill chains",
     ref="5/C12")
 
@@ -90,7 +91,7 @@ def _ticks(x):
 class LogicalTime:
     """patch the modules that keep the accounts so that they read the logical clock; tick only inside the sampling loop"""
 
-    MODULES = ("nessai.samplers.base", "nessai.samplers.nestedsampler", "nessai.model")
+    MODULES = ("nessai.samplers.base", "nessai.samplers.nestedsampler", "nessai.samplers.importancesampler", "nessai.model")
 
     def __enter__(self):
         import importlib
@@ -838,7 +839,7 @@ def check_chain(ctx, kind, sampler_cls, rec, ns, case, kills_hit):
     for idx, what, real in rec.obs:
         m, sp = states[idx], spec[idx]
         where = {**case, "at": what, "op_index": idx, "iteration": real["iteration"]}
-        # model == implementation (the model follows the code, including the stale start of the importance sampler)
+        # model == implementation (the model follows the code: resetStart is read from the generated table)
         if (real["evals"], real["ltime"], real["stime"]) != (m["evals"], m["ltime"], m["stime"]):
             ctx.disagree("accounts of the real sampler differ from the Lean model on the recorded history",
                          {**where, "real": real, "model": {k: m[k] for k in ("evals", "ltime", "stime")}})
@@ -1106,29 +1107,39 @@ def micro_histories(ctx, n):
 # (4) the unbound local in FlowProposal.resume
 # ----------------------------------------------------------------------------------------------------
 def mask_case(ctx, mask_kind="ndarray"):
-    """a run whose flow mask is a NumPy array (documented as array_like) must resume like any other"""
+    """a run whose saved flow mask is a NumPy array (flow_config['mask'] given as an array — documented as array_like — or
+    any AugmentedFlowProposal run, which builds its mask as an array) must resume like any other, at every checkpoint"""
     import torch
     from nessai.flowsampler import FlowSampler
     case = {"kind": "mask", "mask": mask_kind}
     tmp = tempfile.mkdtemp(prefix="c12mk_")
     try:
-        mask = np.array([1.0, -1.0]) if mask_kind == "ndarray" else [1.0, -1.0]
         kw = dict(STD_BASE)
         kw.update(checkpoint_on_iteration=True, checkpoint_interval=5, maximum_uninformed=10, training_frequency=40, cooldown=20,
-                  max_iteration=25, seed=5, flow_config=dict(n_blocks=2, n_neurons=4, mask=mask))
+                  max_iteration=25, seed=5)
+        if mask_kind == "augmented":
+            # stays in the uninformed phase: the mask is pickled from the initialised flow's configuration all the same
+            kw.update(flow_proposal_class="AugmentedFlowProposal", maximum_uninformed=1000, max_iteration=20)
+        else:
+            kw["flow_config"] = dict(n_blocks=2, n_neurons=4, mask=np.array([1.0, -1.0]) if mask_kind == "ndarray" else [1.0, -1.0])
         np.random.seed(5)
         torch.manual_seed(5)
         fs = FlowSampler(make_gauss(), output=tmp, resume=False, signal_handling=False, **kw)
         fs.run(plot=False, save=False)
         saved_iteration = fs.ns.iteration
+        saved_mask = fs.ns._flow_proposal.flow.flow_config.get("mask")
         try:
             fs2 = FlowSampler(make_gauss(), output=tmp, resume=True, signal_handling=False, **kw)
-            ok = fs2.ns.iteration == saved_iteration
-            if not ok:
-                ctx.oracle_fail("FlowProposal.resume:mask", "resumed at a different iteration", case)
+            fs2.ns.initialise()
+            fs2.ns.check_resume()
+            got = fs2.ns._flow_proposal.flow.flow_config.get("mask")
+            if fs2.ns.iteration != saved_iteration:
+                ctx.oracle_fail("FlowProposal.resume:mask", f"resumed at iteration {fs2.ns.iteration}, checkpoint was written at {saved_iteration}", case)
+            if (saved_mask is None) != (got is None) or (saved_mask is not None and not np.array_equal(np.asarray(saved_mask), np.asarray(got))):
+                ctx.oracle_fail("FlowProposal.resume:mask", f"the rebuilt flow uses mask {got}, the run that wrote the checkpoint used {saved_mask}", case)
         except Exception as e:  # noqa
             ctx.oracle_fail("FlowProposal.resume:mask-not-a-list:unbound-local",
-                            f"a run configured with flow_config['mask'] as a NumPy array checkpoints but cannot be resumed: "
+                            f"a run whose flow mask is saved as a NumPy array ({mask_kind}) checkpoints but cannot be resumed: "
                             f"{type(e).__name__}: {e}", {**case, "exception": repr(e)[:200]})
         ctx.case(("mask", mask_kind), True, case, kind="mask:" + mask_kind)
     finally:
@@ -1220,6 +1231,7 @@ def correspond(ctx):
         # ---- FlowProposal.resume with a mask that is not a list
         mask_case(ctx, "ndarray")
         mask_case(ctx, "list")
+        mask_case(ctx, "augmented")
     finally:
         config.livepoints.reset()
 
